@@ -241,7 +241,8 @@ variable {F : Fn α} {T : TrigFn α} {P : DayParams α} {st : DayState' α} {D :
 /-- the canopy the day hands to `transpiration`: cover in `[0, CCx]`, `ccx_w` in `[0, CCx]`,
 adjusted cover non-negative (`CCx ≤ 1`) -/
 theorem fullDay_canopy_facts (h : fullDay F T P st D = .ok r) (hg : D.gs = true)
-    (hc : CcCropPre F P) (hP : PowNonneg F) (hi : CcInv P.cx.cc st) (hx1 : P.cx.cc.ccx ≤ 1)
+    (hc : CcCropPre F P) (hP : PowNonneg F) (hS : PowSqLaw F) (hi : CcInv P.cx.cc st)
+    (hx1 : P.cx.cc.ccx ≤ 1)
     (hw0 : 0 ≤ st.ccxW) (hw1 : st.ccxW ≤ P.cx.cc.ccx) :
     0 ≤ r.crop.ccAdj ∧ 0 ≤ r.crop.ccxW ∧ r.crop.ccxW ≤ P.cx.cc.ccx ∧
       r.state.ccxW = r.crop.ccxW := by
@@ -261,7 +262,7 @@ theorem fullDay_canopy_facts (h : fullDay F T P st D = .ok r) (hg : D.gs = true)
     ⟨hi.cc0, le_trans hi.cc_ns hi.ns_le, hi.adj0, hi.adj1⟩
   have hx : (ccStateOf st X.tc X.rd X.ge).ccxAct ≤ P.cx.cc.ccx := hi.act
   obtain ⟨r0, r1, _, _⟩ := cc_range hc.exp hp hpre hx hcc
-  have hadj := (ccadj_nonneg (F := F) ⟨fun x hx => hP.pow_nonneg x 3 hx⟩ hcc).1 r0
+  have hadj := (ccadj_nonneg (F := F) hS ⟨fun x hx => hP.pow_nonneg x 3 hx⟩ hcc).1 r0
     (le_trans r1 hx1)
   obtain ⟨dr, taw, dt, t, _, e⟩ := canopyCover_season hcc
   have hw : 0 ≤ X.cc.ccxW ∧ X.cc.ccxW ≤ P.cx.cc.ccx := by
@@ -467,7 +468,7 @@ theorem dayOf_trPot_nonneg (hC : CfgOK F T cfg) (hT : CfgTrOK F cfg A) (hW : Wea
     have hPW : d.P.W.crop = (cropOf cfg s.season).cw := by rw [hd.P]; rfl
     have hEd : CcInv d.P.cx.cc d.st := by
       rw [hd.st, hPcx]; exact hE
-    obtain ⟨f1, f2, f3, f4⟩ := fullDay_canopy_facts hd.day hg (dayCropOK_cc hC hd) hC.fn.powNN hEd
+    obtain ⟨f1, f2, f3, f4⟩ := fullDay_canopy_facts hd.day hg (dayCropOK_cc hC hd) hC.fn.powNN hC.fn.powSq hEd
       (by rw [hPcx]; exact ht.ccx1) (by rw [hd.st]; exact hN.ccxW0)
       (by rw [hd.st, hPcx]; exact hN.ccxW1)
     obtain ⟨_, _, _, _, c5, _⟩ := fullDay_counters hd.day
